@@ -429,7 +429,7 @@ class ParserSim:
         which a cache keyed by some canonical form could confuse with the original."""
         try:
             from mathy_core.parser import ExpressionParser
-            return str(ExpressionParser().parse(text))
+            return str(core.bounded_parse(text))
         except Exception:
             return None
 
